@@ -10,24 +10,29 @@ families are packed BATCH trees per case (one harness request, one genbank.Parse
 from common import *
 import itertools
 
-RULE = ("trees: spans a..b (1<=a<=b<=n) with optional < > markers on spans, single bases, complement, join. EXHAUSTIVE families "
-        "(every expression with exactly k operators for each k<=K over the stated leaves of an n-base parent; a join counts one operator): "
-        "thorough: [A] K=3, n=6, ALL 21 spans + 6 bases unmarked, binary joins (2.9e6 trees); [B] K=3, n=6, joins of 2 AND 3 operands, over the "
-        "six leaves 1, 4, 1..3, 2..5, 4..6, 6..6 (5.0e6 trees: every operator shape with at most three operators incl. join(a,complement(b),c), "
-        "join(a,join(b,c),d), complement(join(a,complement(b),c))); [C] K=2, n=6, ALL leaves, joins of 2 and 3 operands except a 3-operand join "
-        "inside a join (join(a,complement(b),c), complement(join(a,b,c)), join(a,b,c), ...: 1.0e5 trees); [D] K=2, n=4, ALL leaves with all four "
-        "marker combinations, binary joins; [E] 4-operand joins of leaves n=4. The complete set 'K=3, n=6, all leaves, 2..3 operands' has "
-        "4.6e7 members at K=2 and about 1e11 at K=3, so B restricts the leaves and C the nesting; this deviation from the quantifier's "
-        "exhaustive clause is stated here rather than hidden. quick: the same families on smaller parents (K=3,n=3 binary; K=2,n=2 and K=1,n=4 with 3-operand "
-        "joins; K=2,n=4 binary; K=1,n=6 marked) — NOT the named domain, hence exhaustive=false for quick. "
+RULE = ("trees: spans a..b (1<=a<=b<=n) with optional < > markers on spans, single bases, complement, join. "
+        "The quantifier's exhaustive clause ('every expression with at most three operators over a 6-base parent', joins of 2..6 operands) "
+        "is NOT enumerated as a whole — with joins of 2..3 operands over all 27 leaves it has 4.6e7 members at two operators and about 1e11 at "
+        "three — so `exhaustive` is false in both tiers. Fully enumerated SUB-domains (every expression with exactly k operators for each k<=K "
+        "over the stated leaves; a join counts one operator), thorough tier: "
+        "[A] K=3, n=6, all 21 spans + 6 bases unmarked, joins of exactly two operands (2.9e6 trees); "
+        "[B] K=3, n=6, joins of two AND three operands, only the six leaves 1, 4, 1..3, 2..5, 4..6, 6..6 (5.1e6 trees with a 3-operand join: every "
+        "operator shape with at most three operators, e.g. join(a,complement(b),c), join(a,join(b,c),d), join(join(a,b,c),d), complement(join(a,complement(b),c))); "
+        "[C] n=6, all unmarked leaves, exactly these five shapes: join(a,b,c), complement(join(a,b,c)), join(complement(a),b,c), join(a,complement(b),c), "
+        "join(a,b,complement(c)) (9.8e4 trees; join(a,join(b,c),d) and join(join(a,b,c),d) over ALL leaves are enumerated only for n=4, family G); "
+        "[D] K=2, n=4, all leaves with all four marker combinations, joins of two operands; [E] 4-operand joins of unmarked leaves, n=4; "
+        "[F] n=3, all leaves with all four marker combinations, the five shapes of C (marked spans inside 3-operand joins); "
+        "[G] n=4, all unmarked leaves: a 3-operand join with one operand a 2-operand join of leaves, and a 2-operand join with one operand a 3-operand join of leaves. "
+        "quick: the same kinds of families on smaller parents (K=3,n=3 binary; K=2,n=2 and K=1,n=4 with 3-operand joins; K=2,n=4 binary; K=1,n=6 marked). "
         "Then random trees (2..6 operands, depth<=4, markers, parents 1..2000 letters, ACGT / IUPAC / mixed case; a fifth with a narrow wrapping "
-        "width so that the location text spans several lines of the record). Each tree is evaluated on the text path (genbank.Parse of a "
-        "record in which a text longer than 58 columns is wrapped after commas onto continuation lines) and on three assembled structures "
+        "width so that the location text spans several lines of the record). Each tree is evaluated on the text path (genbank.Parse of ONE record "
+        "per batch in which a text longer than 58 columns is wrapped after commas onto continuation lines; a batch that cannot be parsed that way is a "
+        "failure) and on three assembled structures "
         "(canonical; Join=false on joins; Join=false + wrapper node for every complement under a pass-through node) through AddFeature; the four "
-        "written texts are judged on the case's parent and on position-separating parents. "
-        "A case line is a batch of up to 64 trees in the exhaustive families (so `evaluations` counts batches); "
+        "written texts are judged on the case's parent and on strand- and position-separating probe parents. "
+        "A case line is a batch of up to 64 trees in the enumerated families (so `evaluations` counts batches); "
         "non-trivial = some tree has an operator and the parent is not a homopolymer; distinct by case text")
-EXHAUSTIVE = {"quick": False, "thorough": True}
+EXHAUSTIVE = {"quick": False, "thorough": False}
 TRUSTED_BASE = ["Spec/Insdc.lean: INSDC location grammar and reading typed from the Feature Table Definition §3.4",
                 "reverse complement inside denote is Transform.revComp (its agreement with the IUPAC reading is C11)",
                 "Go int modelled as unbounded Int; ASCII input"]
@@ -36,8 +41,9 @@ ASSUMPTIONS = ["coordinates and parent lengths are below 2^63 (Go int = Int)", "
                "3.4.3 shows < > on span ends): '<5' / '>5' are outside the location grammar the property is read over. poly parses '<5' to "
                "{Start:-1,End:0} and GetSequence panics; this is a correspondence-only probe, not judged",
                "the location text reaches parseLocation through genbank.Parse/getFeatures (one feature, text without blanks, wrapped after commas "
-               "at 58 columns or at the case's width); that the glued text is the text sent is checked on every case (GbkLocationString) and the "
-               "parsed structure is compared with the model's",
+               "at 58 columns or at the case's width); that the glued text is the text sent is checked on every case (GbkLocationString): all texts of a "
+               "batch are the features of ONE record, and a batch for which that does not hold is judged FAIL (class FAILR/record-path), never "
+               "silently re-parsed; the parsed structure is compared with the model's",
                "'assembled as a structure' is read as: any poly.Location p with Insdc.Rep p l (join nodes with or without the Join flag when they "
                "have >= 2 sublocations, complement as merged flag or wrapper node, pass-through nodes, arbitrary coordinates/flags on inner nodes); "
                "a leaf must have Join == false and no sublocations"]
@@ -45,7 +51,8 @@ PARTIAL = [
     "build_is_insdc (written text is valid INSDC with the same bases and partial ends) holds at full strength only up to the placement of the 3' marker "
     "(build_is_insdc_lenient: the text is read by the recogniser that also accepts a..b>, and denotes the same bases and ends); strict INSDC validity is "
     "proved as build_is_insdc_partial / build_parsed_is_insdc_partial under 'no 3'-partial span' (known finding C02-writer-3prime: a..b> is written "
-    "instead of a..>b; kernel-checked counterexample build_3prime_witness)",
+    "instead of a..>b; kernel-checked counterexample build_3prime_witness). The excluded class is exact: build_3prime_exact proves that the "
+    "written text of EVERY location with a 3'-partial span is rejected by the strict recogniser (build_strict_iff)",
 ]
 
 BATCH = 64
@@ -110,8 +117,22 @@ def family(K, L, parents, ternary=False, only3=False):
         yield from batches(ts, parents)
 
 
+def family_g(L, parents):
+    """a 3-operand join with one operand a 2-operand join of leaves; a 2-operand join with one operand a 3-operand join of leaves"""
+    def gen():
+        for a, b, c, d in itertools.product(L, repeat=4):
+            inner2 = "(j %s %s)" % (b, c)
+            yield "(j %s %s %s)" % (inner2, a, d)
+            yield "(j %s %s %s)" % (a, inner2, d)
+            yield "(j %s %s %s)" % (a, d, inner2)
+            inner3 = "(j %s %s %s)" % (a, b, c)
+            yield "(j %s %s)" % (inner3, d)
+            yield "(j %s %s)" % (d, inner3)
+    yield from batches(gen(), parents)
+
+
 def family_c(L, parents):
-    """<= 2 operators, ALL leaves, one 3-operand join whose operands are leaves or one complement of a leaf"""
+    """ALL leaves of L, one 3-operand join whose operands are leaves or one complement of a leaf, and its complement"""
     def gen():
         for t in itertools.product(L, repeat=3):
             yield "(j %s %s %s)" % t
@@ -189,6 +210,8 @@ def cases(seed, tier):
         yield from family(2, leaves(4, ["", "<", ">", "<>"]), ["GTCA", "ACGA", "TTGA"])  # D
         L4 = leaves(4, [""])
         yield from batches(("(j %s %s %s %s)" % t for t in itertools.product(L4, repeat=4)), ["GTCA", "AACG"])   # E
+        yield from family_c(leaves(3, ["", "<", ">", "<>"]), ["GAT", "ACG", "CTA"])       # F
+        yield from family_g(L4, ["GTCA", "ACGA", "TTGA"])                                  # G
     # ---- random trees, one per case
     n = 600 if quick else 12000
     for i in range(n):
@@ -232,8 +255,8 @@ LEVEL_TEXT = ("Theorems (Props/C02) for every location tree of any depth and ope
               "poly.Location structure p with Rep p l (join nodes with or without the Join flag, complement merged or as wrapper node, pass-through "
               "nodes, arbitrary inner-node coordinates/flags): p evaluates to the INSDC reading (eval_assembled), records the partial ends "
               "(partial_flags_assembled) and is written as text that the lenient recogniser reads back to a location with the same bases and ends "
-              "(build_is_insdc_lenient, full strength) — strictly valid INSDC when there is no 3'-partial span (build_is_insdc_partial; kernel-checked "
-              "counterexample build_3prime_witness for the excluded class). The canonical text parses to exactly the structure pembed l "
+              "(build_is_insdc_lenient, full strength) — strictly valid INSDC exactly when there is no 3'-partial span (build_is_insdc_partial, build_3prime_exact, "
+              "build_strict_iff; kernel-checked counterexample build_3prime_witness). The canonical text parses to exactly the structure pembed l "
               "(parsed_structure: the depth-0 comma splitter inverts operand printing, Atoi inverts Itoa, Index/LastIndex/slices cut keyword and body), "
               "which is in the family (parsed_represents), so eval_parse, partial_flags, build_parsed_is_insdc_lenient/_partial follow; "
               "embed_represents / embedV_represents put the structures sent to AddFeature in the family. "
